@@ -50,6 +50,8 @@ func vpErrIsLast() bool { return true }
 // 81-byte sequence (two lines); 3 = three records incl. an empty sequence
 func vpSampleRecs(tag string, shape int) []*Fasta {
 	switch shape {
+	case 4:
+		return []*Fasta{vpRecord(tag+"a.", 1, 4200, 4096), vpRecord(tag+"b.", 1, 2, 0)}
 	case 0:
 		return []*Fasta{vpRecord(tag+"a.", 1, 2, 0)}
 	case 1:
@@ -110,4 +112,16 @@ func vpFixedPoint(rec any) (bool, bool) {
 	}
 	got := vpCollect(vpOneShot(w.b), 3)
 	return true, len(got) == 1 && !got[0].err && string(got[0].name) == string(f.Name) && string(got[0].seq) == string(f.Sequence)
+}
+
+func vpOneRecord(i, extra int) []byte {
+	out := []byte{'>'}
+	for k := 0; k <= extra; k++ {
+		out = append(out, 'n')
+	}
+	out = append(out, '\n')
+	for j := 0; j < 8; j++ {
+		out = append(out, "ACGT"[(i+j*j)%4])
+	}
+	return append(out, '\n')
 }
